@@ -221,6 +221,20 @@ package bridgesync
 //@   sqltext "SELECT num FROM block ORDER BY num DESC LIMIT 1;"
 //@   ensures[the-highest-block-row-or-zero-when-empty] result1 == nil ==> result0 == ite(bsLastBlockRow == -1, 0, bsLastBlockRow) && bsLastBlockRow >= -1
 //@   ensures[a-storage-failure-is-reported] result1 == nil ==> bsLastBlockScanFaults == old(bsLastBlockScanFaults)
+// what the driver resumes from and the consumers wait for (C05 restart point, C07 "no later block recorded while an
+// earlier one is missing"): answered from the store on every call - never from memory that a rolled-back block could
+// have left behind
+//@ func (p *processor) GetLastProcessedBlock (p, ctx)
+//@   props C05 C07
+//@   requires p != nil && p.db != nil
+//@   modifies bsLastBlockScanFaults
+//@   ensures[answered-from-the-store] result1 == nil ==> result0 == ite(bsLastBlockRow == -1, 0, bsLastBlockRow)
+//@   assert call:getLastProcessedBlockWithTx arg0 == p && arg1 == p.db
+//@ func (s *BridgeSync) GetLastProcessedBlock (s, ctx)
+//@   props C05 C07
+//@   requires s != nil && s.processor != nil && s.processor.db != nil && s.processor.log != nil
+//@   modifies bsLastBlockScanFaults
+//@   ensures[answered-from-the-store] (!old(s.processor.halted) && result1 == nil) ==> result0 == ite(bsLastBlockRow == -1, 0, bsLastBlockRow)
 // the events of a block range as the certificate builder gets them (C02, C03): one read transaction, the range query for
 // exactly the bounds given over the bridge (resp. claim) table; "not found" from the query is an empty answer, any other
 // failure an error. (The row mapping - meddler.ScanAll, SlicePtrsToSlice - is reflection-driven and assumed, A4.)
